@@ -351,8 +351,15 @@ func ruleWriteBits(c *Ctx, id string) {
 	V, P, R := c.V, c.P, c.R
 	f := V.WriteBits
 	key := "alloctxn.(*AllocTxn).WriteBits|"
-	// OverWrite(a, 1, ...) in a range loop over the first parameter
-	calls := P.CallsIn(f, funcIs(V.OverWrite))
+	// OverWrite(a, 1, ...) in a range loop over the first parameter (possibly in a function literal handed to an iterator helper)
+	var calls []ssa.Instruction
+	var callSc Scope
+	for _, sc := range scopesOf(f) {
+		for _, cl := range P.CallsIn(sc.Fn, funcIs(V.OverWrite)) {
+			calls = append(calls, cl)
+			callSc = sc
+		}
+	}
 	if len(calls) != 1 {
 		R.Fail(id, key+"one OverWrite", P.Pos(f.Pos()), "WriteBits writes each number with exactly one OverWrite", fmt.Sprintf("%d OverWrite calls", len(calls)))
 		return
@@ -363,13 +370,16 @@ func ruleWriteBits(c *Ctx, id string) {
 	// address = MkBitAddr(blk, n) with blk the parameter and n the element; bit = 1 << (n % 8)
 	{
 		okAddr := false
-		if ac, ok := stripConv(argN(call, 0)).(*ssa.Call); ok && ac.Call.StaticCallee() != nil && ac.Call.StaticCallee().Name() == "MkBitAddr" {
-			_, isBlk := stripConv(ac.Call.Args[0]).(*ssa.Parameter)
-			// second arg: element of the ranged parameter slice
+		if ac, ok := callSc.S.resolve(stripConv(argN(call, 0))).(*ssa.Call); ok && ac.Call.StaticCallee() != nil && ac.Call.StaticCallee().Name() == "MkBitAddr" {
+			bp, isBlk := callSc.S.resolve(stripConv(ac.Call.Args[0])).(*ssa.Parameter)
+			isBlk = isBlk && bp.Parent() == f
+			// second arg: element of the ranged parameter slice (seen through the iterator's callback parameter)
 			elemOK := false
-			if u, ok := stripConv(ac.Call.Args[1]).(*ssa.UnOp); ok && u.Op == token.MUL {
+			if u, ok := callSc.S.resolve(stripConv(ac.Call.Args[1])).(*ssa.UnOp); ok && u.Op == token.MUL {
 				if ia, ok := u.X.(*ssa.IndexAddr); ok {
-					_, elemOK = stripConv(ia.X).(*ssa.Parameter)
+					var ep *ssa.Parameter
+					ep, elemOK = callSc.S.resolve(stripConv(ia.X)).(*ssa.Parameter)
+					elemOK = elemOK && ep.Parent() == f
 				}
 			}
 			okAddr = isBlk && elemOK
@@ -379,7 +389,7 @@ func ruleWriteBits(c *Ctx, id string) {
 		isElem := func(v ssa.Value) bool {
 			if u, ok := v.(*ssa.UnOp); ok && u.Op == token.MUL {
 				if ia, ok := u.X.(*ssa.IndexAddr); ok {
-					pm, isP := stripConv(ia.X).(*ssa.Parameter)
+					pm, isP := callSc.S.resolve(stripConv(ia.X)).(*ssa.Parameter)
 					return isP && pm.Parent() == f
 				}
 			}
@@ -427,28 +437,25 @@ func ruleWriteBits(c *Ctx, id string) {
 	// block containing xor must be entered only on alloc==false
 	okPol := false
 	if allocParam != nil {
-		// the polarity flag as seen in the scope that complements
-		var flag ssa.Value
-		if xsc.Fn == f {
-			flag = allocParam
-		} else {
-			for _, p := range xsc.Fn.Params {
-				if xsc.S.resolve(p) == allocParam {
-					flag = p
-				}
+		// the edges of the complementing scope taken when the polarity flag is false (the flag may be a parameter
+		// of a helper or a variable captured by a function literal)
+		e := condEdge(xsc.Fn, func(cd Cond) (bool, bool) {
+			if cd.Op != token.ILLEGAL || cd.X == nil {
+				return false, false
+			}
+			if xsc.S.resolve(stripConv(cd.X)) == allocParam {
+				return true, false
+			}
+			return false, false
+		})
+		xb := xor.Block()
+		all := len(xb.Preds) > 0
+		for _, pb := range xb.Preds {
+			if !e(pb, xb) {
+				all = false
 			}
 		}
-		if flag != nil {
-			e := boolEdge(xsc.Fn, flag, false)
-			xb := xor.Block()
-			all := len(xb.Preds) > 0
-			for _, pb := range xb.Preds {
-				if !e(pb, xb) {
-					all = false
-				}
-			}
-			okPol = all
-		}
+		okPol = all
 	}
 	R.Check(okPol, id, key+"complement iff !alloc", P.Pos(xor.Pos()), "the bit is complemented exactly on the alloc==false edge", "edge condition is !alloc", "polarity test does not select the complement on alloc==false")
 }
